@@ -282,17 +282,17 @@ def recorded_calls(store, linked=None):
     orig = FindLinker.get_relocate_candidates
     orig_next = FindLinker.next_level
 
-    def next_wrapper(self, coords, t, image, extra_data=None):
+    def next_wrapper(self, coords, t, *args, **kwargs):
         if linked is not None:
             linked[int(t)] = [tuple(int(round(float(c))) for c in p) for p in np.asarray(coords)]
-        return orig_next(self, coords, t, image, extra_data)
+        return orig_next(self, coords, t, *args, **kwargs)
     FindLinker.next_level = next_wrapper
 
-    def wrapper(self, pos):
+    def wrapper(self, pos, *args, **kwargs):      # (a refactoring may add parameters: passed through)
         posa = np.atleast_2d(pos)
         hashc = np.array(self.hash.coords) if len(self.hash.points) else np.empty((0, posa.shape[1]))
         bg = self.hash.query_points(posa, self.bg_radius)
-        out = orig(self, pos)
+        out = orig(self, pos, *args, **kwargs)
         coords, extra = out
         store.append(dict(t=self.curr_t, image=np.array(self.image), pos=np.array(posa),
                           hash=hashc, bg=None if bg is None else np.array(bg),
@@ -799,6 +799,16 @@ def gen_movie(rng, regime):
                                               "random50"]),
                              seed=rng.randrange(10 ** 6)), dim=2)
     inp.update(par)
+    if regime == "sep" and not preprocess and rng.random() < 0.3:
+        # dark-frame subtracted float frames: the background is NEGATIVE (level -dark), the blobs are
+        # what is left above it.  dark is chosen so that the mass inside a feature mask stays well
+        # above minmass while the sum over the (larger) relocation window may well be negative.
+        dark = min(4.0, 0.6 * (2 * math.pi * sig * sig * 130) / nmask)
+        if dark >= 1.0:
+            inp["dark"] = round(dark * rng.choice([0.5, 0.8, 1.0]), 2)
+            inp["dtype"] = "float64"
+            inp["noise"] = dict(inp["noise"], kind="none")
+            inp["minmass"] = rng.choice([0, 30])
     return inp
 
 
@@ -1180,7 +1190,7 @@ def run_find_link(inp, store, log):
                          inp.get("cam"), k), k)
               for k, fr in enumerate(inp["frames"])]
     if inp.get("dtype", "uint8") != "uint8":
-        reader = [Img(np.asarray(f).astype(inp["dtype"]), f.frame_no) for f in reader]
+        reader = [Img(np.asarray(f).astype(inp["dtype"]) - inp.get("dark", 0), f.frame_no) for f in reader]
     if inp.get("reader") == "reader":
         reader = Reader(reader)
     wh = inp["withhold"]
